@@ -35,7 +35,8 @@ def configs(ch):
                         kgv = rng.choice([b"\x00" + bytes(rng.randrange(1, 256) for _ in range(19)),
                                           bytes(rng.randrange(1, 256) for _ in range(7)) + b"\x00" + bytes(rng.randrange(1, 256) for _ in range(12)),
                                           bytes(rng.randrange(1, 256) for _ in range(19)) + b"\x00", b"\xff" * 20,
-                                          b"0123456789abcdefghij", bytes(rng.randrange(256) for _ in range(20))])
+                                          b"0123456789abcdefghij", bytes(rng.randrange(256) for _ in range(20)),
+                                          bytes(20), bytes(19) + b"\x01", b"\x01" + bytes(19)])
                     if pl and rng.randrange(3) == 0:
                         pw = rng.choice([b"\x00" + pw[1:], pw[:-1] + b"\x00", pw[:len(pw) // 2] + b"\x00" + pw[len(pw) // 2 + 1:]])
                     # "no KG" as callers produce it: nil, or a zero-length non-nil slice ([]byte(""), hex.DecodeString(""))
@@ -57,6 +58,11 @@ def run(ch, build):
                                       {"name": c["user"], "password": c["pw"].hex(), "maxpriv": 5}])
         steps = [dict(hs.open_step(user=c["user"], password=c["pw"], kg=c["kg"], priv=c["priv"], lookup=c["lookup"], suites=[su]),
                       kg_empty=c["kg_empty"])]
+        if c["seed"] % 4 == 0:
+            # the caller's context has NO deadline (cancelled from outside much later) and one datagram of the handshake goes
+            # unanswered for a whole per-attempt timeout: a conforming BMC, a legal network - the session must still open
+            k = c["seed"] % 3
+            steps[0].update(cancel_ms=8000, script=["ok"] * k + ["silence"])
         pool = [x for x in hist.command_pool(rng, True) if x["name"] not in ("setpriv", "chassiscontrol")]
         for _ in range(rng.randrange(1, 7)):
             steps.append({"op": "cmd", "conn": "session", "cmd": rng.choice(pool), "script": ["ok"]})
